@@ -190,12 +190,12 @@ def r3(ctx, F, ip):
         allowed = lambda o: (o.kind == 'call' and o.key in ('archive::Archive::load', 'std::collections::BTreeMap::<K, V>::new',
                                                               'std::default::Default::default')) or _is_none(o) or _archive_source(F, o) \
             or o.kind == 'comb' or (o.kind == 'const' and isinstance(o.key, str) and o.key.startswith('fn:std::collections::BTreeMap')) \
-            or (o.kind == 'agg' and str(o.key).startswith('bidir::run_bisync::{closure'))
+            or (o.kind == 'agg' and '::{closure' in str(o.key) and F.body(str(o.key)) is not None)      # judged from its body below
         has_load = any(_archive_source(F, o) for o in o_base)
         bad = sorted({'%s:%s' % (o.kind, o.key) for o in o_base if not allowed(o)})
         # closures used to build base may only project the loaded archive
         for o in o_base:
-            if o.kind == 'agg' and str(o.key).startswith('bidir::run_bisync::{closure'):
+            if o.kind == 'agg' and '::{closure' in str(o.key) and F.body(str(o.key)) is not None:
                 cbody = F.body(o.key)
                 if cbody is not None:
                     co = flow_of(cbody).origins(0)
@@ -315,6 +315,8 @@ def r4(ctx, F):
                             why.append('%s outside the trust_base == true branch' % c_.split('::')[-1])
                 return good
             ok = z_ok(ct['args'][2])
+            if ok and not has_none[0] and tr_true and cfg.edges_guard(tr_true, cb):
+                has_none[0] = True      # this whole call sits behind trust_base == true (the untrusted case has a call of its own)
             ctx.check(ok and has_none[0], 'C07.R4', 'reconcile:z->reconcile_path', 'z is None, or a base value that exists only behind trust_base == true',
                       'the base value handed to reconcile_path can be a real base entry although trust_base is false (%s)' % ('; '.join(sorted(set(why))) or 'no None alternative'),
                       term_loc(b, cb))
